@@ -24,6 +24,9 @@ pub enum Op {
     Flush,
     /// sample `virtual_position()`
     Tell,
+    /// `try_finish()` in the middle of the history (the writer stays usable: an EOF block is
+    /// emitted and later writes append after it); multithreaded/async writers treat it as flush
+    TryFinish,
 }
 
 #[derive(Clone, Copy, Debug, Serialize, Deserialize, PartialEq, Eq)]
@@ -77,13 +80,23 @@ pub fn gen_history(rng: &mut Rng, max_ops: usize, max_total: usize) -> Vec<Op> {
             } else {
                 ops.push(Op::WriteAll { len });
             }
-        } else if r < 82 {
+        } else if r < 80 {
             ops.push(Op::Flush);
+        } else if r < 84 {
+            ops.push(Op::TryFinish);
         } else {
             ops.push(Op::Tell);
         }
     }
     ops
+}
+
+/// Histories for writers without `try_finish` (multithreaded, async): it becomes a flush, in the
+/// writer under test and in its single-threaded reference alike.
+pub fn without_try_finish(ops: &[Op]) -> Vec<Op> {
+    ops.iter()
+        .map(|o| if *o == Op::TryFinish { Op::Flush } else { o.clone() })
+        .collect()
 }
 
 pub fn total_len(ops: &[Op]) -> usize {
@@ -172,6 +185,10 @@ pub fn run_history(
             }
             Op::Tell => {
                 tells.push((u64::from(w.virtual_position()), cur as u64));
+            }
+            Op::TryFinish => {
+                w.try_finish()
+                    .map_err(|e| ("write-error".to_string(), format!("op {i}: try_finish failed on a fault-free sink: {e}")))?;
             }
         }
         let accepted = sink.0.lock().unwrap().data.len() as u64;
@@ -292,7 +309,10 @@ impl C01 {
             End::TryFinishIntoInner => End::Drop,
             End::TryFinishDrop => End::Finish,
         };
-        match catch(|| run_history(plan.level, &data, &plan.ops, other, WritePlan::plain())) {
+        // (a history that calls try_finish itself legitimately ends differently: finish() always
+        // appends an EOF block, a drop right after try_finish does not)
+        let has_try_finish = plan.ops.contains(&Op::TryFinish);
+        match catch(|| run_history(plan.level, &data, &plan.ops, if has_try_finish { plan.end } else { other }, WritePlan::plain())) {
             Ok(Ok(r2)) => {
                 if r2.sink != r.sink {
                     return Some(viol(
